@@ -101,6 +101,12 @@ class C10(Check):
         hdr[0x100:0x104] = b'NCSD'
         hdr[0x104:0x108] = cur.to_bytes(4, 'little')
         hdr[0x108:0x110] = tid[::-1]
+        # everything the reader has no business interpreting is arbitrary: partition fs/crypt types, the extended header hash,
+        # sizes, and the partition FLAGS (0x188..0x18F: media type, card device, the SDK 2.x card-device byte, ...)
+        hdr[0x110:0x120] = rng.rbytes(0x10)
+        hdr[0x160:0x200] = rng.rbytes(0xA0)
+        if rng.chance(0.5):
+            hdr[0x188:0x190] = bytes(rng.pick([0, 0, 1, 2, 3, 0xFF]) for _ in range(8))
         for i, (o, s) in enumerate(table):
             hdr[0x120 + 8 * i:0x124 + 8 * i] = o.to_bytes(4, 'little')
             hdr[0x124 + 8 * i:0x128 + 8 * i] = s.to_bytes(4, 'little')
